@@ -630,6 +630,22 @@ class ExprMixin:
             if isinstance(op, ast.Sub):
                 return SV(z3.SetDifference(a.t, b.t), a.ty)
             raise Unsupported("set op")
+        if isinstance(op, ast.Add) and isinstance(b.ty, T.Tup) and isinstance(a.ty, (T.Tup, T.Union)):
+            # tuple concatenation; for a union of tuple shapes: the (unique) shape whose extension is again a shape of
+            # the union (a record that grows from its short to its long form) -- other shapes leave the model
+            if isinstance(a.ty, T.Union):
+                cands = []
+                for tag, aty in a.ty.alts.items():
+                    if isinstance(aty, T.Tup):
+                        ext = T.Tup(*(list(aty.items) + list(b.ty.items)))
+                        if any(x == ext for x in a.ty.alts.values()):
+                            cands.append((tag, aty))
+                if len(cands) != 1:
+                    raise Unsupported(f"tuple concatenation on {a.ty}")
+                self.check(st, a.ty.is_(cands[0][0], a.t), f"model(record is not in its {cands[0][0]} form)", node)
+                a = SV(a.ty.proj(cands[0][0], a.t), cands[0][1])
+            rt = T.Tup(*(list(a.ty.items) + list(b.ty.items)))
+            return SV(rt.mk(*([a.ty.get(a.t, i) for i in range(len(a.ty.items))] + [b.ty.get(b.t, i) for i in range(len(b.ty.items))])), rt)
         if isinstance(a.ty, T.Seq) and isinstance(b.ty, T.Seq) and isinstance(op, ast.Add):
             return self.seq_concat(a, b, st)
         if isinstance(a.ty, T.Seq) and isinstance(op, ast.Mult):
@@ -920,6 +936,17 @@ class ExprMixin:
             self.bind_target(gen.target, SV(tt.mk(*[z3.Select(s.ty.arr(s.t), v) for s in ss]), tt), binds)
             g = z3.And(0 <= v, *[v < s.ty.len(s.t) for s in ss])
             return [v], g, binds, ("zip", ss)
+        if isinstance(it, ast.Call) and isinstance(it.func, ast.Attribute) and it.func.attr == "items" and not it.args:
+            m = self.ev(it.func.value, st)
+            if isinstance(m.ty, T.Opt):
+                m = self.unwrap(m, st, it)
+            if isinstance(m.ty, T.Map) and isinstance(gen.target, (ast.Tuple, ast.List)) and len(gen.target.elts) == 2 \
+                    and all(isinstance(e, ast.Name) for e in gen.target.elts):
+                v = z3.Const(fresh_name("q"), m.ty.key.sort())
+                binds[gen.target.elts[0].id] = SV(v, m.ty.key)
+                binds[gen.target.elts[1].id] = SV(z3.Select(m.ty.valarr(m.t), v), m.ty.val)
+                return [v], z3.Select(m.ty.dom(m.t), v), binds, ("set", SV(m.ty.dom(m.t), T.Set(m.ty.key)))
+            raise Unsupported("comprehension over .items() of a non-map / with a non-pair target")
         s = self.ev(it, st)
         if isinstance(s.ty, T.Opt):
             s = self.unwrap(s, st, it)
@@ -1078,7 +1105,13 @@ class ExprMixin:
         if not (isinstance(node.key, ast.Name) and len(vs) == 1 and node.key.id in binds and binds[node.key.id].t.eq(vs[0])):
             raise Unsupported("dict comprehension whose key is not the iteration variable")
         if g.ifs:
-            raise Unsupported("filtered dict comprehension")
+            with self.binding(binds):
+                self.qscope.append((vs, guard))
+                try:
+                    conds = [self.truthy(self.ev(c, st)) for c in g.ifs]
+                finally:
+                    self.qscope.pop()
+            guard = z3.And(guard, *conds)
         with self.binding(binds):
             with self.guarded(guard):
                 self.qscope.append((vs, guard))
